@@ -108,8 +108,31 @@ def to_spec(n, edges, vars_, origins, conds):
           "conds": {str(k): v for k, v in conds.items()}}
 
 
-def check_spec(spec, kmax=3, stats=None):
+def _perturb_heap(pad):
+  """Builds and drops a throw-away typegraph so that the next one is laid out differently in memory.
+
+  The order in which an origin's source sets are visited follows the addresses of the Binding objects
+  (std::set<SourceSet> compares element pointers), and freed chunks are reused last-in-first-out, so a
+  program built after another one was freed has its bindings at addresses that do not follow creation
+  order - the situation of a long-lived worker, reproduced here in a fresh process.
+  """
+  if not pad:
+    return
+  cfg = boot.load()
+  p = cfg.Program()
+  n = p.NewCFGNode("pad")
+  vs = [p.NewVariable() for _ in range(pad)]
+  for i, v in enumerate(vs):
+    for j in range(1 + (i + pad) % 3):
+      v.AddBinding("pad%d_%d" % (i, j), [], n)
+  del vs, n, p
+  import gc
+  gc.collect()
+
+
+def check_spec(spec, kmax=3, stats=None, pad=0):
   """Runs every query on one spec; returns list of violation summaries."""
+  _perturb_heap(pad)
   g = tg.build(spec)
   acyclic = tg.is_acyclic(g)
   hascond = bool(g.conds)
@@ -181,6 +204,9 @@ def _fresh_only(spec, summary):
   return summary
 
 
+PADS = (0,)   # heap layouts each graph is built under (thorough: also after a freed throw-away graph)
+
+
 def work(item):
   n, edges, vars_, D, maxcond = item
   stats = {}
@@ -189,7 +215,11 @@ def work(item):
   for origins, conds in specs_for(item):
     spec = to_spec(n, edges, vars_, origins, conds)
     nspec += 1
-    bad = check_spec(spec, stats=stats)
+    bad = []
+    for pad in PADS:
+      bad = check_spec(spec, stats=stats, pad=pad)
+      if bad:
+        break
     if bad and len(viol) < 20:
       viol.append((spec, bad[:3]))
     elif bad:
@@ -227,6 +257,8 @@ def items_for(tier):
 
 
 def run(rep, tier, seed):
+  global PADS
+  PADS = (0,) if tier == "quick" else (0, 3)
   items = items_for(tier)
   tot = {}
   nviol = 0
@@ -243,7 +275,7 @@ def run(rep, tier, seed):
   for k in ("acyclic", "acyclic+cond", "cyclic", "cyclic+cond", "ref_true"):
     if tot.get(k):
       rep.outcome(k, tot[k])
-  rep.cov.update({"graphs": tot.get("specs", 0), "work_items": len(items),
+  rep.cov.update({"graphs": tot.get("specs", 0), "work_items": len(items), "heap_layouts_per_graph": list(PADS),
                   "bounds": "tier=%s; see vk/checks/c07.py items_for: (nodes, bindings, variables, cyclic, deviations D, max conditions)" % tier})
   rep.rule = ("every typegraph = edge subset x binding->variable assignment x one origin per binding x all "
               "<=D deviations (extra origin, extra source-set member, extra source set, node condition); "
@@ -257,5 +289,9 @@ def run(rep, tier, seed):
 
 
 def replay(case):
-  bad = check_spec(case["spec"])
-  return [{"key": vrun.jkey(case["spec"]), "summary": bad[0]}] if bad else []
+  # a violation may depend on the memory layout of the bindings (see _perturb_heap): try several
+  for pad in range(0, 40):
+    bad = check_spec(case["spec"], pad=pad)
+    if bad:
+      return [{"key": vrun.jkey(case["spec"]), "summary": bad[0] + (" [heap layout %d]" % pad if pad else "")}]
+  return []
